@@ -207,8 +207,9 @@ def run_one(module: str, spec: dict, tmpdir: str) -> dict:
             res["status"] = "ok"
             res["spec"] = spec
             return res
-        if status != "timeout":
-            break  # a crashing shard is deterministic; do not retry
+        if status != "timeout" and not (isinstance(status, int) and status < 0):
+            break  # a shard that exits with an error is deterministic; one killed by a signal (observed once:
+            # SIGSEGV of one shard on a heavily loaded machine, not reproducible) or timed out is retried once
     return {
         "status": "failed" if status != "timeout" else "timeout",
         "spec": spec, "returncode": status, "output_tail": (output or "")[-3000:],
